@@ -39,6 +39,7 @@ struct pool {
 	int			put_from_completion;
 	int			actions;
 	_Atomic int		children_created, children_done;
+	long			worker_ok_base;	/* owner's count of created workers when the pool was created */
 };
 static struct pool pools[MAXLOOP];
 static __thread int tl_worker_of = -1;		/* set by the thread-start hook */
@@ -47,12 +48,23 @@ static __thread int tl_in_submit;
 
 static struct {
 	uint64_t cases, items, works, completions, continuations, from_completion, null_items, bursts, puts, puts_busy, puts_from_completion,
-		 starts, stops, max_concurrent, idle_deaths, threads, children, time_advances, obligations, discharged, create_failures;
+		 starts, stops, max_concurrent, idle_deaths, threads, children, time_advances, obligations, discharged, create_failures, submits_without_worker;
 } S;
 
 static int g_tc_fault;
 static _Atomic long create_failures;	/* pthread_create failed (injected) in this case: queued items may legitimately wait for a worker that never comes */
-void hk_thread_create(unsigned long th, int ret) { (void)th; if (!ret) { atomic_fetch_add(&n_thr_created, 1); tl_created++; } else atomic_fetch_add(&create_failures, 1); }
+static __thread long tl_worker_attempts, tl_worker_ok;	/* worker threads the library tried to create / created from this (owner) thread */
+static __thread int tl_spawning_child;			/* ... as opposed to the iv_thread children of the scenario */
+void hk_thread_create(unsigned long th, int ret)
+{
+	(void)th;
+	if (!ret) { atomic_fetch_add(&n_thr_created, 1); tl_created++; } else atomic_fetch_add(&create_failures, 1);
+	if (!tl_spawning_child) {
+		tl_worker_attempts++;
+		if (!ret)
+			tl_worker_ok++;
+	}
+}
 void hk_thread_join(unsigned long th) { (void)th; atomic_fetch_add(&n_thr_joined, 1); tl_joined++; }
 
 static int64_t delays_ns[] = { 0, 1000000, 5 * VT_NS, 10 * VT_NS - 1000000, 10 * VT_NS - 1, 10 * VT_NS, 10 * VT_NS + 1, 10 * VT_NS + 1000000, 15 * VT_NS, 25 * VT_NS };
@@ -95,9 +107,22 @@ static void submit_item(struct loopthr *lt, int null_pool)
 	atomic_store(&items[i].submit_seq, seq_next());
 	atomic_store(&items[i].submitted, 1);
 	ilv(lt->idx, 1, i);
-	tl_in_submit = 1;
-	iv_work_pool_submit_work(null_pool ? NULL : p->wp, items[i].wi);
-	tl_in_submit = 0;
+	{
+		/* workers of this pool that exist by the harness's own count (created minus thread-stop hooks run); both change only under
+		 * the pool lock or in this thread, so a zero read here is still zero when the library decides inside the call */
+		long att0 = tl_worker_attempts;
+		int live0 = null_pool ? 1 : (int)(tl_worker_ok - p->worker_ok_base) - (int)atomic_load(&p->stops);
+		tl_in_submit = 1;
+		iv_work_pool_submit_work(null_pool ? NULL : p->wp, items[i].wi);
+		tl_in_submit = 0;
+		if (!null_pool && live0 <= 0) {
+			S.submits_without_worker++;
+			if (tl_worker_attempts == att0)
+				mon_viol("C12", "no-worker-started", g_method,
+					 "item %d was submitted by owner %d while no worker of the pool existed (%ld created, %d stopped), and the library did not even try to start one: nothing will ever run the item",
+					 i, lt->idx, tl_worker_ok - p->worker_ok_base, (int)p->stops);
+		}
+	}
 	if (null_pool)
 		S.null_items++;
 }
@@ -273,10 +298,14 @@ static void child_fn(void *v)
 static void spawn_child(struct loopthr *lt)
 {
 	struct child_arg *a = calloc(1, sizeof(*a));
+	int i_ret;
 	a->owner = lt->idx;
 	a->style = rng_n(&lt->rng, 4);
 	a->delay = delays_ns[rng_n(&lt->rng, 5)];
-	if (iv_thread_create("child", child_fn, a) == 0) {
+	tl_spawning_child = 1;
+	i_ret = iv_thread_create("child", child_fn, a);
+	tl_spawning_child = 0;
+	if (i_ret == 0) {
 		atomic_fetch_add(&pools[lt->idx].children_created, 1);
 		S.children++;
 	} else {
@@ -348,6 +377,7 @@ static void scn_setup(struct loopthr *lt)
 		_exit(2);
 	}
 	p->created = 1;
+	p->worker_ok_base = tl_worker_ok;
 	p->bursts_left = 1 + rng_n(&lt->rng, 5);
 	p->put_at_burst = rng_pct(&lt->rng, 60) ? 1 + (int)rng_n(&lt->rng, p->bursts_left) : -1;
 	p->put_from_completion = rng_pct(&lt->rng, 25);
@@ -525,12 +555,12 @@ int main(int argc, char **argv)
 		run_case(i, seed);
 	mon_printf("STAT method=%s cases=%llu items=%llu work_runs=%llu completions=%llu continuations=%llu submitted_from_completion=%llu null_pool_items=%llu "
 		   "bursts=%llu pool_puts=%llu puts_while_work_running=%llu puts_from_completion=%llu worker_starts=%llu worker_stops=%llu max_concurrent=%llu "
-		   "iv_thread_children=%llu obligations=%llu discharged=%llu threads_created=%llu thread_create_failures_injected=%llu priority_deferrals=%llu shim_quiescences=%llu time_advances=%llu violations=%d\n",
+		   "iv_thread_children=%llu obligations=%llu discharged=%llu threads_created=%llu thread_create_failures_injected=%llu submits_with_no_worker_alive=%llu priority_deferrals=%llu shim_quiescences=%llu time_advances=%llu violations=%d\n",
 		   g_method, (unsigned long long)S.cases, (unsigned long long)S.items, (unsigned long long)S.works, (unsigned long long)S.completions,
 		   (unsigned long long)S.continuations, (unsigned long long)S.from_completion, (unsigned long long)S.null_items,
 		   (unsigned long long)S.bursts, (unsigned long long)S.puts, (unsigned long long)S.puts_busy, (unsigned long long)S.puts_from_completion,
 		   (unsigned long long)S.starts, (unsigned long long)S.stops, (unsigned long long)S.max_concurrent, (unsigned long long)S.children,
-		   (unsigned long long)S.obligations, (unsigned long long)S.discharged, (unsigned long long)vt_stats.threads_created, (unsigned long long)(S.create_failures + create_failures),
+		   (unsigned long long)S.obligations, (unsigned long long)S.discharged, (unsigned long long)vt_stats.threads_created, (unsigned long long)(S.create_failures + create_failures), (unsigned long long)S.submits_without_worker,
 		   (unsigned long long)vt_stats.pct_deferrals, (unsigned long long)vt_stats.quiescences, (unsigned long long)vt_stats.time_advances, mon_viol_total);
 	mon_printf("DONE\n");
 	return 0;
